@@ -12,6 +12,11 @@ Theorem C03_kinds : forall g : list rule,
 Proof. intro g. destruct (kinds_correct g) as [s [H1 [H2 _]]]. exists s. split; assumption. Qed.
 Print Assumptions C03_kinds.
 
+(* the documented kind is unique, so C03_kinds pins the computed kind down completely *)
+Theorem C03_kind_spec_deterministic : forall g x k1 k2, kind_spec g x k1 -> kind_spec g x k2 -> k1 = k2.
+Proof. exact kind_spec_unique. Qed.
+Print Assumptions C03_kind_spec_deterministic.
+
 Example C03_kinds_example :
   (* A: B | C;  B: '(' A ')' | M;  C: x=INT;  M: 'm'; *)
   let g := [ {| r_attrs := false; r_body := Body (Choice [Ref 1; Ref 2]) |};
@@ -44,6 +49,12 @@ Proof.
   intro k. split; [reflexivity | intro r; apply H2].
 Qed.
 Print Assumptions C03_isinstance_iff_partial.
+
+(* _tx_inh_by of the result only ever lists non-match rules referenced by an abstract rule *)
+Theorem C03_inh_by_sound : forall g : list rule, exists s, determine_types g = Some s /\
+  forall z y, In y (inh s z) -> types s z = KAbstract /\ In y (rule_refs g z) /\ types s y <> KMatch.
+Proof. exact inh_by_sound. Qed.
+Print Assumptions C03_inh_by_sound.
 
 Example C03_isinstance_example :
   (* X: C | Y;  Y: '(' X ')' | D;  C, D, E common: _tx_inh_by is cyclic (X -> Y -> X) *)
